@@ -193,36 +193,40 @@ Definition holds (tl : tol) (ss : list sample) (m : lmode) : Prop :=
   mode_holds tl (norm2 (lin_x ss)) (lin_x ss) (lin_y ss) m = Some true.
 
 (* LinearComparer awards the largest configured credit among the (zero-compatible, when comparing with zero)
-   relations that hold, and 0 when none of them holds *)
+   relations that hold, and 0 when none of them holds or none can be checked *)
 Theorem linear_best_mode tl cfg ss g mk :
   (forall m c, credit_of cfg m = Some c -> 0 <= c) ->
   linear_cmp None tl cfg ss = CDict g mk ->
   let ms := valid_modes cfg (comparing_zero tl ss) in
   (forall m, In m ms -> holds tl ss m -> credit_or_0 cfg m <= g) /\
-  ((exists m, In m ms /\ holds tl ss m /\ g = credit_or_0 cfg m) \/
-   (g = 0 /\ exists m, In m ms /\ ~ holds tl ss m)).
+  0 <= g /\
+  (g = 0 \/ exists m, In m ms /\ holds tl ss m /\ g = credit_or_0 cfg m).
 Proof.
   intros Hpos H ms. unfold linear_cmp in H. fold (lin_x ss) (lin_y ss) in H.
   destruct (length ss <? 3)%nat; [discriminate|]. fold ms in H.
   destruct (mode_grades cfg tl (norm2 (lin_x ss)) (lin_x ss) (lin_y ss) ms) as [gs|] eqn:E; [|discriminate].
-  destruct (qmax_list gs) as [g'|] eqn:M; [|discriminate]. injection H as -> _.
   pose proof (mode_grades_spec _ _ _ _ _ _ _ E) as F.
-  destruct (qmax_list_spec gs g M) as [Hin Hmax]. split.
-  - intros m Hm Hh.
+  assert (Hc0 : forall m, 0 <= credit_or_0 cfg m).
+  { intro m. unfold credit_or_0. destruct (credit_of cfg m) eqn:C; [apply (Hpos m q C) | lra]. }
+  destruct (qmax_list gs) as [g'|] eqn:M.
+  - injection H as -> _. destruct (qmax_list_spec gs g M) as [Hin Hmax].
+    assert (Key : forall g0, In g0 gs -> 0 <= g0 /\ (g0 = 0 \/ exists m, In m ms /\ holds tl ss m /\ g0 = credit_or_0 cfg m)).
+    { clear - F Hc0. induction F as [|m0 g0 ms0 gs0 [b [Hb Hg]] _ IH]; intros g1 Hg1; [destruct Hg1|].
+      destruct Hg1 as [<- | Hg1].
+      - destruct b; subst g0.
+        + split; [apply Hc0|]. right. exists m0. split; [left; reflexivity|]. split; [exact Hb | reflexivity].
+        + split; [lra | left; reflexivity].
+      - destruct (IH g1 Hg1) as [P [Q | [m [I1 I2]]]]; split; auto. right. exists m. split; [right; exact I1 | exact I2]. }
+    split; [|exact (Key g Hin)].
+    intros m Hm Hh.
     assert (G : exists g0, In g0 gs /\ g0 = credit_or_0 cfg m).
     { clear - F Hm Hh. induction F as [|m0 g0 ms0 gs0 [b [Hb Hg]] _ IH]; [destruct Hm|].
       destruct Hm as [-> | Hm].
       - exists g0. split; [left; reflexivity|]. unfold holds in Hh. rewrite Hh in Hb. injection Hb as <-. exact Hg.
       - destruct (IH Hm) as [g1 [I1 I2]]. exists g1. split; [right; exact I1 | exact I2]. }
     destruct G as [g0 [I1 ->]]. apply Hmax. exact I1.
-  - clear Hmax M E. induction F as [|m0 g0 ms0 gs0 [b [Hb Hg]] _ IH]; [destruct Hin|].
-    destruct Hin as [<- | Hin].
-    + destruct b.
-      * left. exists m0. split; [left; reflexivity|]. split; [exact Hb | exact Hg].
-      * right. split; [exact Hg|]. exists m0. split; [left; reflexivity|]. unfold holds. rewrite Hb. discriminate.
-    + destruct (IH Hin) as [[m [I1 I2]] | [I0 [m [I1 I2]]]].
-      * left. exists m. split; [right; exact I1 | exact I2].
-      * right. split; [exact I0|]. exists m. split; [right; exact I1 | exact I2].
+  - injection H as <- _. apply qmax_list_none in M. subst gs. inversion F as [E0|]; subst.
+    split; [intros m []|]. split; [lra | left; reflexivity].
 Qed.
 
 (* zero rule: when the student's samples are all zero within tolerance, or the expected samples are all exactly
@@ -258,46 +262,11 @@ Proof.
 Qed.
 
 (* ---------- what the four relations mean ---------- *)
-Definition real_vec (a : cvec) : Prop := Forall (fun z => snd z == 0) a.
-
-Lemma real_vec_vadd a b : real_vec a -> real_vec b -> real_vec (vadd a b).
+(* equals: the samples coincide within tolerance *)
+Theorem equals_holds_iff tl ref2 (x y : cvec) :
+  mode_holds tl ref2 x y LEquals = Some true <-> tol_ok tl = true /\ dist2 x y <= tol2 tl ref2.
 Proof.
-  intro Ha. revert b. induction Ha as [|x a Hx Ha IH]; intros b Hb; [exact Hb|].
-  destruct Hb as [|y b Hy Hb]; [constructor; assumption|].
-  simpl. constructor; [rewrite snd_cadd, Hx, Hy; ring | apply IH; exact Hb].
-Qed.
-
-Lemma real_vec_vscale k a : real_vec a -> real_vec (vscale k a).
-Proof.
-  induction 1 as [|x a Hx Ha IH]; [constructor|]. unfold vscale. simpl. constructor; [rewrite snd_crs, Hx; ring | exact IH].
-Qed.
-
-Lemma real_vec_vsub a b : real_vec a -> real_vec b -> real_vec (vsub a b).
-Proof. intros Ha Hb. unfold vsub. apply real_vec_vadd; [exact Ha | apply real_vec_vscale; exact Hb]. Qed.
-
-Lemma csq_sum_real d : real_vec d -> fst (csq_sum d) == norm2 d /\ snd (csq_sum d) == 0.
-Proof.
-  unfold csq_sum, norm2. induction 1 as [|z d Hz Hd [I1 I2]]; [split; reflexivity|].
-  simpl cdotu. rewrite rdot_cons, fst_cadd, snd_cadd, fst_cmul, snd_cmul, I1, I2, Hz. split; ring.
-Qed.
-
-Lemma csqrt_le_real tl ref2 d : real_vec d -> 0 <= ref2 ->
-  (csqrt_le tl ref2 (csq_sum d) = true <-> tol_ok tl = true /\ norm2 d <= tol2 tl ref2).
-Proof.
-  intros Hd Hr. destruct (csq_sum_real d Hd) as [E1 E2].
-  unfold csqrt_le. rewrite andb_true_iff, Qle_bool_iff, cabs2_eq, E1, E2.
-  pose proof (norm2_nonneg d) as Hn. pose proof (tol2_nonneg tl ref2 Hr) as Ht.
-  split; intros [H1 H2]; (split; [exact H1|]).
-  - apply (proj1 (sq_le_iff _ _ Hn Ht)). nra.
-  - assert (norm2 d * norm2 d <= tol2 tl ref2 * tol2 tl ref2) by (apply (proj2 (sq_le_iff _ _ Hn Ht)); exact H2). nra.
-Qed.
-
-(* equals (real samples): the samples coincide within tolerance *)
-Theorem equals_holds_iff tl ref2 (x y : cvec) : real_vec x -> real_vec y -> 0 <= ref2 ->
-  (mode_holds tl ref2 x y LEquals = Some true <-> tol_ok tl = true /\ dist2 x y <= tol2 tl ref2).
-Proof.
-  intros Hx Hy Hr. simpl. rewrite <- (csqrt_le_real tl ref2 (vsub x y) (real_vec_vsub x y Hx Hy) Hr).
-  split; [intro H; injection H as H; exact H | intro H; rewrite H; reflexivity].
+  simpl. rewrite <- norm_le_iff. split; [intro H; injection H as H; exact H | intro H; rewrite H; reflexivity].
 Qed.
 
 (* proportional: expected = a * student for some complex a, within tolerance *)
@@ -340,11 +309,17 @@ Proof.
     rewrite (veq_dist2 y y _ _ (veq_refl y) (lincomb2 a b x o)) in L. lra.
 Qed.
 
-(* offset (real samples): expected = student + b for some real b, within tolerance *)
+(* offset: expected = student + b for some complex b, within tolerance (the mean difference is the best b) *)
 Lemma rdot_ones d : rdot d (ones (length d)) == fst (fold_right cadd (0, 0) d).
 Proof.
   induction d as [|z d IH]; [reflexivity|].
   unfold ones in *. cbn [length repeat fold_right]. rewrite rdot_cons, fst_cadd, IH. cbn [fst snd]. ring.
+Qed.
+
+Lemma rdot_J_ones d : rdot d (vJ (ones (length d))) == snd (fold_right cadd (0, 0) d).
+Proof.
+  induction d as [|z d IH]; [reflexivity|].
+  unfold ones, vJ in *. cbn [length repeat fold_right map]. rewrite rdot_cons, snd_cadd, IH. unfold cJ. cbn [fst snd]. ring.
 Qed.
 
 Lemma norm2_ones n : norm2 (ones n) == inject_Z (Z.of_nat n).
@@ -353,26 +328,17 @@ Proof.
   unfold ones in *. cbn [repeat]. rewrite rdot_cons, IH, Nat2Z.inj_succ. unfold Z.succ. rewrite inject_Z_plus. cbn [fst snd]. change (inject_Z 1) with 1. ring.
 Qed.
 
-Lemma fold_cadd_real d : real_vec d -> snd (fold_right cadd (0, 0) d) == 0.
-Proof. induction 1 as [|z d Hz _ IH]; [reflexivity|]. cbn [fold_right]. rewrite snd_cadd, Hz, IH. ring. Qed.
-
-Lemma map_cadd_real m x : snd m == 0 -> veq (map (cadd m) x) (vadd x (vscale (fst m) (ones (length x)))).
+Lemma map_cadd_ones m (x : cvec) : veq (map (cadd m) x) (vadd x (cvscale m (ones (length x)))).
 Proof.
-  intro Hm. apply Forall2_ceq_veq. induction x as [|z x IH]; [constructor|].
-  unfold ones, vscale in *. cbn [map length repeat vadd]. constructor; [|exact IH].
-  split; rewrite ?fst_cadd, ?snd_cadd, ?fst_crs, ?snd_crs, ?Hm; cbn [fst snd]; ring.
+  apply Forall2_ceq_veq. induction x as [|z x IH]; [constructor|].
+  unfold ones, cvscale in *. cbn [map length repeat vadd]. constructor; [|exact IH].
+  split; rewrite ?fst_cadd, ?snd_cadd, ?fst_cmul, ?snd_cmul; cbn [fst snd]; ring.
 Qed.
 
 Lemma vsub_length a b : length a = length b -> length (vsub a b) = length a.
 Proof.
   unfold vsub, vscale. revert b. induction a as [|x a IH]; intros [|y b] H; simpl in *; try lia.
   f_equal. apply IH. lia.
-Qed.
-
-Lemma real_vec_map_cadd m x : snd m == 0 -> real_vec x -> real_vec (map (cadd m) x).
-Proof.
-  intros Hm Hx. induction Hx as [|z x0 Hz _ IH]; [constructor|].
-  cbn [map]. constructor; [rewrite snd_cadd, Hm, Hz; ring | exact IH].
 Qed.
 
 Lemma sq_nonneg (z : Q) : 0 <= z * z.
@@ -382,114 +348,100 @@ Proof.
   - apply Qmult_le_0_compat; lra.
 Qed.
 
-Lemma off_quad (q r n m b : Q) : 0 < n -> m * n == - r ->
-  q + 2 * m * r + m * m * n <= q + 2 * b * r + b * b * n.
+(* q + 2 (a r + b s) + (a^2 + b^2) n  is smallest at (a, b) = (ma, mb) when ma n = -r, mb n = -s *)
+Lemma off_quad (q r s n ma mb a b : Q) : 0 < n -> ma * n == - r -> mb * n == - s ->
+  q + 2 * ma * r + 2 * mb * s + (ma * ma + mb * mb) * n <= q + 2 * a * r + 2 * b * s + (a * a + b * b) * n.
 Proof.
-  intros Hn Hm.
-  assert (D : q + 2 * b * r + b * b * n - (q + 2 * m * r + m * m * n) == n * ((b - m) * (b - m))).
-  { assert (Er : r == - (m * n)) by (rewrite Hm; ring). rewrite Er. ring. }
-  assert (S : 0 <= (b - m) * (b - m)) by apply sq_nonneg.
-  assert (0 <= n * ((b - m) * (b - m))) by (apply Qmult_le_0_compat; [lra | exact S]).
-  apply Qle_minus_iff. setoid_replace (q + 2 * b * r + b * b * n + - (q + 2 * m * r + m * m * n)) with (n * ((b - m) * (b - m))) by (rewrite <- D; ring). exact H.
+  intros Hn Ha Hb.
+  assert (Er : r == - (ma * n)) by (rewrite Ha; ring). assert (Es : s == - (mb * n)) by (rewrite Hb; ring).
+  assert (D : q + 2 * a * r + 2 * b * s + (a * a + b * b) * n - (q + 2 * ma * r + 2 * mb * s + (ma * ma + mb * mb) * n)
+              == n * ((a - ma) * (a - ma) + (b - mb) * (b - mb))).
+  { rewrite Er, Es. ring. }
+  pose proof (sq_nonneg (a - ma)). pose proof (sq_nonneg (b - mb)).
+  assert (0 <= n * ((a - ma) * (a - ma) + (b - mb) * (b - mb))) by (apply Qmult_le_0_compat; lra).
+  apply Qle_minus_iff.
+  setoid_replace (q + 2 * a * r + 2 * b * s + (a * a + b * b) * n + - (q + 2 * ma * r + 2 * mb * s + (ma * ma + mb * mb) * n))
+    with (n * ((a - ma) * (a - ma) + (b - mb) * (b - mb))) by (rewrite <- D; ring).
+  assumption.
 Qed.
 
 Section Offset.
   Variables x y : cvec.
-  Hypothesis Hx : real_vec x.
-  Hypothesis Hy : real_vec y.
   Hypothesis Hl : length x = length y.
   Hypothesis Hn : (0 < length x)%nat.
 
   Let n := inject_Z (Z.of_nat (length x)).
   Let o := ones (length x).
   Let e := vsub x y.
-  Let f (b : Q) := norm2 (vsub (vadd x (vscale b o)) y).
+  Let f (b : C) := norm2 (vsub (vadd x (cvscale b o)) y).
   Let mean := cmean (vsub y x).
 
   Lemma off_n_pos : 0 < n.
   Proof. unfold n. change 0 with (inject_Z 0). rewrite <- Zlt_Qlt. lia. Qed.
 
-  Lemma off_f_expand b : f b == norm2 e + 2 * b * rdot e o + b * b * n.
+  Lemma off_f_expand b : f b == norm2 e + 2 * fst b * rdot e o + 2 * snd b * rdot e (vJ o) + (fst b * fst b + snd b * snd b) * n.
   Proof.
-    unfold f. assert (E : veq (vsub (vadd x (vscale b o)) y) (vadd e (vscale b o))) by (intro c; unfold e; vnorm; ring).
-    rewrite (veq_norm2 _ _ E), norm2_vadd, norm2_vscale. vnorm. unfold o, n. rewrite norm2_ones. ring.
+    unfold f. assert (E : veq (vsub (vadd x (cvscale b o)) y) (vadd e (cvscale b o))) by (intro c; unfold e; vnorm; ring).
+    rewrite (veq_norm2 _ _ E), norm2_vadd, norm2_cvscale, cabs2_eq.
+    rewrite (rdot_comm e (cvscale b o)), rdot_cvscale_l, (rdot_comm o e), (rdot_comm (vJ o) e).
+    unfold o, n. rewrite norm2_ones. ring.
   Qed.
 
-  Lemma off_mean_real : snd mean == 0.
+  Lemma off_mean_val : fst mean * n == - rdot e o /\ snd mean * n == - rdot e (vJ o).
   Proof.
-    unfold mean, cmean. rewrite snd_crs, fold_cadd_real; [ring|]. apply real_vec_vsub; assumption.
-  Qed.
-
-  Lemma off_mean_val : fst mean * n == - rdot e o.
-  Proof.
-    unfold mean, cmean. rewrite fst_crs.
+    unfold mean, cmean. rewrite fst_crs, snd_crs.
     assert (L : length (vsub y x) = length x) by (rewrite vsub_length; lia).
-    rewrite <- (rdot_ones (vsub y x)), L. fold o. fold n.
-    unfold e. vnorm. pose proof off_n_pos. field. lra.
+    rewrite <- (rdot_ones (vsub y x)), <- (rdot_J_ones (vsub y x)), L. fold o. fold n.
+    unfold e. vnorm. pose proof off_n_pos. split; field; lra.
   Qed.
 
-  Lemma off_min b : f (fst mean) <= f b.
-  Proof. rewrite !off_f_expand. apply off_quad; [apply off_n_pos | apply off_mean_val]. Qed.
-
-  Lemma off_w_value : fst (offset_w x y) == f (fst mean) /\ snd (offset_w x y) == 0.
+  Lemma off_min b : f mean <= f b.
   Proof.
-    unfold offset_w. fold mean.
-    assert (R : real_vec (vsub (map (cadd mean) x) y)).
-    { apply real_vec_vsub; [|exact Hy]. apply real_vec_map_cadd; [apply off_mean_real | exact Hx]. }
-    destruct (csq_sum_real _ R) as [E1 E2]. split; [|exact E2].
-    rewrite E1. unfold f. apply veq_norm2. apply veq_vsub; [|reflexivity].
-    apply map_cadd_real. apply off_mean_real.
+    rewrite !off_f_expand. destruct off_mean_val as [M1 M2].
+    apply off_quad; [apply off_n_pos | exact M1 | exact M2].
   Qed.
 
-  Theorem offset_holds_iff tl ref2 : 0 <= ref2 ->
+  Lemma off_err2_value : offset_err2 x y == f mean.
+  Proof.
+    unfold offset_err2. fold mean. unfold f. apply veq_norm2. apply veq_vsub; [|reflexivity]. apply map_cadd_ones.
+  Qed.
+
+  Theorem offset_holds_iff tl ref2 :
     (mode_holds tl ref2 x y LOffset = Some true <->
-     tol_ok tl = true /\ exists b : Q, dist2 (vadd x (vscale b (ones (length x)))) y <= tol2 tl ref2).
+     tol_ok tl = true /\ exists b : C, dist2 (vadd x (cvscale b (ones (length x)))) y <= tol2 tl ref2).
   Proof.
-    intro Hr. simpl. destruct off_w_value as [W1 W2].
-    pose proof (tol2_nonneg tl ref2 Hr) as Ht.
-    assert (F0 : 0 <= f (fst mean)) by apply norm2_nonneg.
-    assert (K : csqrt_le tl ref2 (offset_w x y) = true <-> tol_ok tl = true /\ f (fst mean) <= tol2 tl ref2).
-    { unfold csqrt_le. rewrite andb_true_iff, Qle_bool_iff, cabs2_eq, W1, W2.
-      split; intros [H1 H2]; (split; [exact H1|]).
-      - apply (proj1 (sq_le_iff _ _ F0 Ht)). nra.
-      - assert (f (fst mean) * f (fst mean) <= tol2 tl ref2 * tol2 tl ref2) by (apply (proj2 (sq_le_iff _ _ F0 Ht)); exact H2). nra. }
+    simpl.
+    assert (K : norm_le tl ref2 (offset_err2 x y) = true <-> tol_ok tl = true /\ f mean <= tol2 tl ref2).
+    { rewrite norm_le_iff, off_err2_value. reflexivity. }
     split.
-    - intro H. injection H as H. apply K in H. destruct H as [Hok H]. split; [exact Hok|]. exists (fst mean). exact H.
-    - intros [Hok [b Hb]]. f_equal. apply K. split; [exact Hok|]. pose proof (off_min b) as M. unfold f in M at 2. unfold dist2 in Hb. fold o in Hb. lra.
+    - intro H. injection H as H. apply K in H. destruct H as [Hok H]. split; [exact Hok|]. exists mean. exact H.
+    - intros [Hok [b Hb]]. f_equal. apply K. split; [exact Hok|]. pose proof (off_min b) as M. unfold f in M at 2.
+      unfold dist2 in Hb. fold o in Hb. lra.
   Qed.
 End Offset.
 
-(* ---------- the two defects ---------- *)
-Definition lc_zero_cfg : lconfig := mkL None (Some (1 # 2)) None None.
-Definition lc_zero_samples : list sample :=
-  [(VNum (NReal 2), VNum (NReal 0)); (VNum (NReal 3), VNum (NReal 0)); (VNum (NReal 5), VNum (NReal 0))].
-
-(* "no proportional or linear credit when either side is zero" should mean a result without credit; with no
-   zero-compatible mode configured the comparer raises instead (max() of an empty list) *)
-Theorem linear_zero_rule_refuted :
-  ~ (forall tl cfg ss, (3 <= length ss)%nat -> comparing_zero tl ss = true ->
-       exists g mk, linear_cmp None tl cfg ss = CDict g mk).
+(* ---------- comparing with zero always yields a result (possibly without credit) ---------- *)
+Lemma mode_grades_total cfg tl ref2 x y ms : (forall m, In m ms -> zero_compatible m = true) ->
+  exists gs, mode_grades cfg tl ref2 x y ms = Some gs.
 Proof.
-  intro H. destruct (H (TPct (1 # 10000)) lc_zero_cfg lc_zero_samples) as [g [mk E]];
-    [simpl; lia | vm_compute; reflexivity | vm_compute in E; discriminate E].
+  induction ms as [|m r IH]; intro H; [exists []; reflexivity|].
+  destruct IH as [gs Hgs]; [intros m' Hm'; apply H; right; exact Hm'|].
+  pose proof (H m (or_introl eq_refl)) as Z. simpl. rewrite Hgs.
+  destruct m; simpl in Z; try discriminate; simpl; eexists; reflexivity.
 Qed.
 
-(* complex samples: sum(np.square(d)) is not the squared norm; student = expected + (1, i) is graded "equal" *)
-Definition lc_cplx_samples : list sample :=
-  [ (VVec [(2, 0); (3, 0)], VVec [(3, 0); (3, 1)])
-  ; (VVec [(4, 0); (1, 0)], VVec [(5, 0); (1, 1)])
-  ; (VVec [(1, 0); (5, 0)], VVec [(2, 0); (5, 1)]) ].
-
-Theorem linear_equals_complex_refuted :
-  ~ (forall tl ref2 x y, 0 <= ref2 ->
-       (mode_holds tl ref2 x y LEquals = Some true <-> tol_ok tl = true /\ dist2 x y <= tol2 tl ref2)).
+(* "no proportional or linear credit when either side is zero": a result is returned, and it is the result of
+   the comparer with these two modes switched off (linear_zero_rule) -- even when no mode is left to check *)
+Theorem linear_zero_total tl cfg ss : (3 <= length ss)%nat -> comparing_zero tl ss = true ->
+  exists g, linear_cmp None tl cfg ss = CDict g MsgOther.
 Proof.
-  intro H.
-  specialize (H (TPct (1 # 10000)) (norm2 (lin_x lc_cplx_samples)) (lin_x lc_cplx_samples) (lin_y lc_cplx_samples)).
-  destruct H as [H _]; [apply norm2_nonneg|].
-  assert (A : mode_holds (TPct (1 # 10000)) (norm2 (lin_x lc_cplx_samples)) (lin_x lc_cplx_samples) (lin_y lc_cplx_samples) LEquals
-              = Some true) by (vm_compute; reflexivity).
-  destruct (H A) as [_ B]. vm_compute in B. apply B. reflexivity.
+  intros Hl Hz. unfold linear_cmp.
+  assert (E : (length ss <? 3)%nat = false) by (apply Nat.ltb_ge; exact Hl). rewrite E, Hz.
+  destruct (mode_grades_total cfg tl (norm2 (concat (map (fun es => flat (snd es)) ss)))
+              (concat (map (fun es => flat (snd es)) ss)) (concat (map (fun es => flat (fst es)) ss))
+              (valid_modes cfg true)) as [gs Hgs].
+  { intros m Hm. unfold valid_modes in Hm. apply filter_In in Hm. apply Hm. }
+  rewrite Hgs. destruct (qmax_list gs); eexists; reflexivity.
 Qed.
 
 (* =========================================================================================== *)
@@ -555,7 +507,7 @@ Proof.
       destruct (same_length_vectors (p0 :: r)) eqn:SL; try discriminate. injection He as <-.
       change (compare_evaluations (GMatrix p) tl CmpSpan (s :: ss)) with (compare_simple (GMatrix p) tl CmpSpan (s :: ss)).
       apply compare_simple_raise. unfold run_simple. rewrite P.
-      change (vector_span_cmp (Some (p_detail p)) tl (fun _ _ => s_ols s) (p0 :: r) (s_student s)
+      change (vector_span_cmp (Some (p_detail p)) tl (fun _ _ => s_coef s) (p0 :: r) (s_student s)
               = CRaise (XInputType (MsgShape (shape_msg (p_detail p) (shape_of p0) (shape_of (s_student s)))))).
       unfold vector_span_cmp. rewrite SL. cbn [negb hd]. rewrite V. reflexivity.
     - (* phase *)
@@ -563,7 +515,7 @@ Proof.
       destruct (is_vec p0) eqn:IV; try discriminate. injection He as <-.
       change (compare_evaluations (GMatrix p) tl CmpPhase (s :: ss)) with (compare_simple (GMatrix p) tl CmpPhase (s :: ss)).
       apply compare_simple_raise. unfold run_simple. rewrite P.
-      change (vector_phase_cmp (Some (p_detail p)) tl (fun _ _ => s_ols s) [p0] (s_student s)
+      change (vector_phase_cmp (Some (p_detail p)) tl (fun _ _ => s_coef s) [p0] (s_student s)
               = CRaise (XInputType (MsgShape (shape_msg (p_detail p) (shape_of p0) (shape_of (s_student s)))))).
       assert (SL : same_length_vectors [p0] = true).
       { unfold same_length_vectors. cbn [forallb hd]. rewrite IV, shape_eqb_refl. reflexivity. }
@@ -597,8 +549,8 @@ Proof.
     rewrite Forall_forall in H. rewrite (H w Hw), (H w0 (or_introl eq_refl)), Z.eqb_refl. reflexivity.
 Qed.
 
-Lemma span_cmp_core d tl (ws : list cvec) (v : cvec) : ws <> [] -> Forall (fun w => length w = length v) ws ->
-  vector_span_cmp (Some d) tl lstsq_spec (map VVec ws) (VVec v) = span_core tl (lstsq_spec ws v) v.
+Lemma span_cmp_core d tl lstsq (ws : list cvec) (v : cvec) : ws <> [] -> Forall (fun w => length w = length v) ws ->
+  vector_span_cmp (Some d) tl lstsq (map VVec ws) (VVec v) = span_core tl ws (lstsq ws v) v.
 Proof.
   intros Hne H. unfold vector_span_cmp. rewrite (same_length_vectors_map ws (length v) Hne H). cbn [negb].
   destruct ws as [|w0 ws]; [contradiction|]. cbn [map hd]. unfold validate_shape. cbn [shape_of shape_eqb].
@@ -622,3 +574,12 @@ Lemma entry_cmp_valid_shape d tl pc ss :
   Forall (fun es => shape_eqb (shape_of (fst es)) (shape_of (snd es)) = true) ss ->
   matrix_entry_cmp (Some d) tl pc ss = entry_credit pc (entry_summary tl ss).
 Proof. intro H. unfold matrix_entry_cmp. rewrite (first_shape_error_none d ss H). reflexivity. Qed.
+
+(* regression inputs of the repaired defects (used by the Examples of Props/C16.v) *)
+Definition lc_zero_cfg : lconfig := mkL None (Some (1 # 2)) None None.
+Definition lc_zero_samples : list sample :=
+  [(VNum (NReal 2), VNum (NReal 0)); (VNum (NReal 3), VNum (NReal 0)); (VNum (NReal 5), VNum (NReal 0))].
+Definition lc_cplx_samples : list sample :=
+  [ (VVec [(2, 0); (3, 0)], VVec [(3, 0); (3, 1)])
+  ; (VVec [(4, 0); (1, 0)], VVec [(5, 0); (1, 1)])
+  ; (VVec [(1, 0); (5, 0)], VVec [(2, 0); (5, 1)]) ].
